@@ -18,6 +18,7 @@ inductive Op where
   | sendline (b : Bytes) (rb : Bool) (t : Option Nat)
   | sendcontrol (n : Nat)
   | streamEnter (id : Nat) (showPrompt : Bool) | streamExit
+  | streamExitAt (k : Nat)                       -- leave the `with_stream` block of stream `k`, wherever it is
   | deathEnter (p : Pat) (exc : Nat) | deathExit | deathAdd (p : Pat) (exc : Nat)
   | sleep (n : Nat)
   deriving Repr, BEq, Inhabited
@@ -114,6 +115,13 @@ def runOp (op : Op) (r : RunSt) : OpRes × RunSt :=
     match r.streams with
     | [] => (.badop, r)
     | (id, prev) :: rest => (.unit, { r with st := streamExit id prev s, streams := rest })
+  | .streamExitAt k =>
+    -- the `finally` block of the context manager that attached stream `k` runs, although it is not the
+    -- innermost one: `self._streams.remove(stream)` takes out THAT stream, and `previous_log_prompt` — captured
+    -- when `k` was attached — is written back, whatever has been attached or detached in between
+    match r.streams.find? (·.1 == k) with
+    | none => (.badop, r)
+    | some fr => (.unit, { r with st := streamExit k fr.2 s, streams := r.streams.eraseP (·.1 == k) })
   | .deathEnter p e =>
     let (id, s) := deathEnter p e s
     (.unit, { r with st := s, deaths := id :: r.deaths })
@@ -203,6 +211,9 @@ def op (s : String) : Option Op :=
   | ["ds-!"] => some .deathExit
   | ["ads", p, e] => do pure (.deathAdd (← Pat.ofWire p) (← e.toNat?))
   | ["sleep", n] => n.toNat?.map .sleep
+  | [tok] =>
+    -- `st-@<k>`: leave the attachment of stream `k` (not necessarily the innermost one)
+    if tok.startsWith "st-@" then ((tok.drop 4).toString.toNat?).map .streamExitAt else none
   | _ => none
 
 /-- `<chunk> <slice> <script> <accept> <op>*` -/
